@@ -4,36 +4,20 @@ C01 — osu!mania file ↔ chart.  Property theorems about the executable model 
 (`harness/props/c01.py`) ties the model to reamber/osu/*.py on every run; `Generated/OsuTables.lean` ties the
 constants, defaults, key table and header template to the source.
 
-Parameters, not proved (DESIGN §5 K3): float rendering (`repr`, `:g`) and `unidecode` — the writer emits tokens;
+Parameters, not proved (DESIGN §5 K3): float rendering (`repr`) and `unidecode` — the writer emits tokens;
 hit / hold / sample lines contain integers only and are proved down to the characters.
 -/
-import Reamber.Lemmas.OsuLines
+import Reamber.Lemmas.OsuHeader
 import Reamber.Generated.OsuTables
 
 namespace Reamber.Osu
 
 /-! ## tie to the source -/
 
-/-- the key table the model's `metaAssign` implements: (key, attribute, conversion) -/
-def modelKeyTable : List (String × String × String) :=
-  [("AudioFilename", "audio_file_name", "strip"), ("AudioLeadIn", "audio_lead_in", "int"),
-   ("PreviewTime", "preview_time", "int"), ("Countdown", "countdown", "boolint"),
-   ("SampleSet", "sample_set", "sampleset"), ("StackLeniency", "stack_leniency", "float"), ("Mode", "mode", "int"),
-   ("LetterboxInBreaks", "letterbox_in_breaks", "boolint"), ("SpecialStyle", "special_style", "boolint"),
-   ("WidescreenStoryboard", "widescreen_storyboard", "boolint"), ("DistanceSpacing", "distance_spacing", "float"),
-   ("BeatDivisor", "beat_divisor", "int"), ("GridSize", "grid_size", "int"), ("TimelineZoom", "timeline_zoom", "float"),
-   ("Title", "title", "strip"), ("TitleUnicode", "title_unicode", "strip"), ("Artist", "artist", "strip"),
-   ("ArtistUnicode", "artist_unicode", "strip"), ("Creator", "creator", "strip"), ("Version", "version", "strip"),
-   ("Source", "source", "strip"), ("Tags", "tags", "tags"), ("BeatmapID", "beatmap_id", "int"),
-   ("BeatmapSetID", "beatmap_set_id", "int"), ("HPDrainRate", "hp_drain_rate", "float"),
-   ("CircleSize", "circle_size", "float"), ("OverallDifficulty", "overall_difficulty", "float"),
-   ("ApproachRate", "approach_rate", "float"), ("SliderMultiplier", "slider_multiplier", "float"),
-   ("SliderTickRate", "slider_tick_rate", "float")]
-
 def tokFlag : Tok → String
-  | .g _ => "g" | .uni _ => "uni" | _ => ""
+  | .num _ => "num" | .uni _ => "uni" | _ => ""
 
-/-- (literal prefix, "g" | "uni" | "", literal suffix) of one header line -/
+/-- (literal prefix, "num" | "uni" | "", literal suffix) of one header line -/
 def lineShape : TLine → String × String × String
   | [] => ("", "", "")
   | [.lit s] => (String.ofList s, "", "")
@@ -69,15 +53,9 @@ theorem consts_tie :
        ("OsuSv.metronome", 4), ("OsuSv.sample_set", 0), ("OsuSv.sample_set_index", 0), ("OsuSv.volume", 50),
        ("OsuSv.kiai", 0), ("OsuSample.volume", 70)] ∧
     Generated.Osu.metaKeyTable = modelKeyTable ∧
+    Generated.Osu.numHelperBody = "f = float(v); return str(int(f)) if f.is_integer() else repr(f)" ∧
     (writeMeta d0).map lineShape ++ [("*", "*", "")] = Generated.Osu.metaWriteShape := by
   decide +kernel
-
-/-- keys outside the table leave the metadata untouched -/
-theorem metaAssign_other (m : Meta) (k : Str) (v : MVal)
-    (hk : ∀ e ∈ modelKeyTable, k ≠ e.1.toList) : metaAssign m k v = .ok m := by
-  simp only [modelKeyTable, List.mem_cons, List.not_mem_nil, or_false, forall_eq_or_imp, forall_eq] at hk
-  unfold metaAssign
-  simp only [hk, if_false]
 
 /-! ## column ↔ x (every key count) -/
 
@@ -164,15 +142,6 @@ example : wfObjLine "307,0,1000.75,132,0,2000.5:0:0:0:0:".toList = true := by de
 
 /-! ## `Key:Value` — the first colon only (D01) -/
 
-/-- one `Key:value` line: split at the first colon, then the key table — for every key without a colon that is not
-one of the two event markers, and **every** value -/
-theorem metaStep_key_value (m m' : Meta) (k v : Str) (rest : List Str) (hk : ':' ∉ k) (hb : k ≠ kBackground)
-    (hs : k ≠ kSamples) (ha : metaAssign m k (some v) = .ok m') : metaStep m (k ++ ':' :: v) rest = .ok m' := by
-  unfold metaStep
-  have hne : k ++ ':' :: v ≠ [] := by simp
-  rw [if_neg hne, split1_key_value ':' k v hk]
-  simp only [ha, if_neg hb, if_neg hs]
-
 /-- **every metadata value survives, whatever it contains** (further colons included): the line `key ++ ":" ++ value`
 is split at the first colon and the value reaches the attribute trimmed.  Shown for the seven text attributes. -/
 theorem meta_value_any (m : Meta) (v : Str) (rest : List Str) :
@@ -202,6 +171,65 @@ theorem meta_numeric_any (m : Meta) (v : Str) (rest : List Str) (q : Rat) (i : I
      · decide +kernel
      · decide +kernel
      · unfold metaAssign; simp [mFloat, mInt, h, bind, Except.bind, pure, Except.pure])
+
+/-- **numeric metadata round trip, no domain restriction** (after the repair of D30 the writer uses `_num`): the line
+that `write_meta_string_list` emits for a numeric attribute reads back to exactly that number — for every integral
+value with every renderer (the integer is printed by the model), for any other value under the assumption that
+`repr` of *that* value reads back (`float(repr(x)) == x`).  Shown for the eight float-read attributes and the three
+int-read ones (which hold integers). -/
+theorem meta_numeric_roundtrip (R : Render) (m : Meta) (q : Rat) (n : Int) (rest : List Str)
+    (hr : q.den ≠ 1 → readFloat (R.repr q) = .ok q) :
+    metaStep m (R.line [L "HPDrainRate:", .num q]) rest = .ok { m with hpDrainRate := q } ∧
+    metaStep m (R.line [L "CircleSize:", .num q]) rest = .ok { m with circleSize := q } ∧
+    metaStep m (R.line [L "OverallDifficulty:", .num q]) rest = .ok { m with overallDifficulty := q } ∧
+    metaStep m (R.line [L "ApproachRate:", .num q]) rest = .ok { m with approachRate := q } ∧
+    metaStep m (R.line [L "SliderMultiplier:", .num q]) rest = .ok { m with sliderMultiplier := q } ∧
+    metaStep m (R.line [L "SliderTickRate:", .num q]) rest = .ok { m with sliderTickRate := q } ∧
+    metaStep m (R.line [L "DistanceSpacing: ", .num q]) rest = .ok { m with distanceSpacing := q } ∧
+    metaStep m (R.line [L "TimelineZoom: ", .num q]) rest = .ok { m with timelineZoom := q } ∧
+    metaStep m (R.line [L "AudioLeadIn: ", .num (n : Rat)]) rest = .ok { m with audioLeadIn := (n : Rat) } ∧
+    metaStep m (R.line [L "BeatDivisor: ", .num (n : Rat)]) rest = .ok { m with beatDivisor := (n : Rat) } ∧
+    metaStep m (R.line [L "GridSize: ", .num (n : Rat)]) rest = .ok { m with gridSize := (n : Rat) } := by
+  have hf := readFloat_tok_num R q hr
+  have hi := readInt_tok_num R n
+  refine ⟨?_, ?_, ?_, ?_, ?_, ?_, ?_, ?_, ?_, ?_, ?_⟩
+  · exact metaStep_lit_tok R m _ "HPDrainRate".toList [] _ _ rest (by decide +kernel) (by decide +kernel)
+      (by decide +kernel) (by decide +kernel)
+      (by unfold metaAssign; simp [mFloat, hf, bind, Except.bind, pure, Except.pure])
+  · exact metaStep_lit_tok R m _ "CircleSize".toList [] _ _ rest (by decide +kernel) (by decide +kernel)
+      (by decide +kernel) (by decide +kernel)
+      (by unfold metaAssign; simp [mFloat, hf, bind, Except.bind, pure, Except.pure])
+  · exact metaStep_lit_tok R m _ "OverallDifficulty".toList [] _ _ rest (by decide +kernel) (by decide +kernel)
+      (by decide +kernel) (by decide +kernel)
+      (by unfold metaAssign; simp [mFloat, hf, bind, Except.bind, pure, Except.pure])
+  · exact metaStep_lit_tok R m _ "ApproachRate".toList [] _ _ rest (by decide +kernel) (by decide +kernel)
+      (by decide +kernel) (by decide +kernel)
+      (by unfold metaAssign; simp [mFloat, hf, bind, Except.bind, pure, Except.pure])
+  · exact metaStep_lit_tok R m _ "SliderMultiplier".toList [] _ _ rest (by decide +kernel) (by decide +kernel)
+      (by decide +kernel) (by decide +kernel)
+      (by unfold metaAssign; simp [mFloat, hf, bind, Except.bind, pure, Except.pure])
+  · exact metaStep_lit_tok R m _ "SliderTickRate".toList [] _ _ rest (by decide +kernel) (by decide +kernel)
+      (by decide +kernel) (by decide +kernel)
+      (by unfold metaAssign; simp [mFloat, hf, bind, Except.bind, pure, Except.pure])
+  · exact metaStep_lit_tok R m _ "DistanceSpacing".toList [' '] _ _ rest (by decide +kernel) (by decide +kernel)
+      (by decide +kernel) (by decide +kernel)
+      (by unfold metaAssign; simp [mFloat, readFloat_cons_space, hf, bind, Except.bind, pure, Except.pure])
+  · exact metaStep_lit_tok R m _ "TimelineZoom".toList [' '] _ _ rest (by decide +kernel) (by decide +kernel)
+      (by decide +kernel) (by decide +kernel)
+      (by unfold metaAssign; simp [mFloat, readFloat_cons_space, hf, bind, Except.bind, pure, Except.pure])
+  · exact metaStep_lit_tok R m _ "AudioLeadIn".toList [' '] _ _ rest (by decide +kernel) (by decide +kernel)
+      (by decide +kernel) (by decide +kernel)
+      (by unfold metaAssign; simp [mInt, readInt_cons_space, hi, bind, Except.bind, pure, Except.pure])
+  · exact metaStep_lit_tok R m _ "BeatDivisor".toList [' '] _ _ rest (by decide +kernel) (by decide +kernel)
+      (by decide +kernel) (by decide +kernel)
+      (by unfold metaAssign; simp [mInt, readInt_cons_space, hi, bind, Except.bind, pure, Except.pure])
+  · exact metaStep_lit_tok R m _ "GridSize".toList [' '] _ _ rest (by decide +kernel) (by decide +kernel)
+      (by decide +kernel) (by decide +kernel)
+      (by unfold metaAssign; simp [mInt, readInt_cons_space, hi, bind, Except.bind, pure, Except.pure])
+
+/-- non-vacuity: the two values of the former finding D30 come back exactly (an integer ≥ 10^6, with any renderer) -/
+example : (metaStep {} (intRender.line [L "AudioLeadIn: ", .num 1000000]) []).toOption.map (·.audioLeadIn) = some 1000000 := by
+  decide +kernel
 
 example : (metaStep {} "Title:a:b: c".toList []).toOption.map (·.title) = some "a:b: c".toList := by decide +kernel
 
@@ -248,31 +276,6 @@ theorem timing_line_roundtrip (R : Render) :
 
 /-! ## the whole `[HitObjects]` section of a written chart -/
 
-theorem mem_insertBy {α} (le : α → α → Bool) (x a : α) (l : List α) : a ∈ insertBy le x l ↔ a = x ∨ a ∈ l := by
-  induction l with
-  | nil => simp [insertBy]
-  | cons y ys ih =>
-    unfold insertBy
-    split
-    · simp
-    · simp only [List.mem_cons, ih]
-      constructor
-      · rintro (h | h | h)
-        · exact Or.inr (Or.inl h)
-        · exact Or.inl h
-        · exact Or.inr (Or.inr h)
-      · rintro (h | h | h)
-        · exact Or.inr (Or.inl h)
-        · exact Or.inl h
-        · exact Or.inr (Or.inr h)
-
-theorem mem_isort {α} (le : α → α → Bool) (a : α) (l : List α) : a ∈ isort le l ↔ a ∈ l := by
-  induction l with
-  | nil => simp [isort]
-  | cons y ys ih =>
-    have : isort le (y :: ys) = insertBy le y (isort le ys) := rfl
-    rw [this, mem_insertBy, ih]; simp
-
 /-- **Every chart, any number of notes, any interleaving, every key count 1..256**: the object lines that `write`
 emits (holds and hits merged, sorted by time), classified by counting separators and read back, are exactly the hits
 and holds of `quantize c` — columns kept, times truncated, nothing lost, nothing invented, nothing misclassified. -/
@@ -310,15 +313,125 @@ theorem timing_section_roundtrip (R : Render) (c : Chart)
       = .ok (quantize R.uni c).bpms :=
   readTiming_writeTiming R c.bpms c.svs hb hs
 
-/-- the sample events `write` emits, selected by their `Sample` prefix and read back, are the quantized samples -/
-theorem samples_section_roundtrip (R : Render) (ss : List Sample) (hf : ∀ s ∈ ss, ',' ∉ s.file) :
-    mapE readSample (((ss.map writeSample).map R.line).filter (startsWith pSample)) = .ok (ss.map qSample) := by
-  induction ss with
-  | nil => rfl
-  | cons s t ih =>
-    have r := readSample_writeSample R s (hf s (by simp))
-    have hp : startsWith pSample (R.line (writeSample s)) = true := by
-      rw [line_writeSample]; simp [startsWith, pSample, joinWith]
-    simp only [List.map_cons, List.filter_cons, hp, if_true, mapE, r, ih (fun s' hs' => hf s' (by simp [hs']))]
+/-! ## the whole text -/
+
+/-- the header lines as the reader sees them -/
+def headS (R : Render) (c : Chart) : List Str := (headLines R c).map strip
+
+/-- what the whole-text theorem needs from the header (the metadata loop over the ~50 written lines) -/
+def HeaderOk (R : Render) (c : Chart) : Prop :=
+  (∀ l ∈ headLines R c, '\n' ∉ l) ∧ hTiming ∉ headS R c ∧ hObjects ∉ headS R c ∧
+  readMeta {} (headS R c ++ [[]]) = .ok (qMeta R.uni c.md)
+
+/-- **`read_file(write_file(c)) = quantize c`, modulo the header**: for every chart (any number of objects and
+timing points, every key count 1..256), the text `"\n".join(write())` split at line breaks, trimmed line by line,
+cut at the first `[TimingPoints]` / `[HitObjects]`, classified and parsed, is exactly `quantize c` — *provided* the
+metadata loop over the written header yields `qMeta c.md` (`HeaderOk`; its per-key parts are `meta_value_any`,
+`meta_numeric_roundtrip`, `samples_section_roundtrip`).  Hypotheses on the chart: columns inside the key count;
+hitsound file names without `,` `:` line breaks or a trailing blank; non-zero bpm / SV; on the renderer: `repr` of
+the floats of the timing lines reads back exactly and is free of commas and blanks. -/
+theorem read_writeText_of_header (R : Render) (c : Chart)
+    (hk : 0 < pyTrunc c.md.circleSize) (hk' : pyTrunc c.md.circleSize ≤ 256)
+    (hhits : ∀ h ∈ c.hits, ObjOk2 (pyTrunc c.md.circleSize) (.hit h))
+    (hholds : ∀ h ∈ c.holds, ObjOk2 (pyTrunc c.md.circleSize) (.hold h))
+    (hb : ∀ b ∈ c.bpms, BpmOk2 R b) (hs : ∀ b ∈ c.svs, SvOk2 R b) (hH : HeaderOk R c) :
+    readText (writeText R c) = .ok (quantize R.uni c) := by
+  obtain ⟨hnl, hT, hO, hmeta⟩ := hH
+  have hobj : ∀ o ∈ sortedObjs c, ObjOk2 (pyTrunc c.md.circleSize) o := by
+    intro o ho
+    unfold sortedObjs at ho
+    rw [mem_isort] at ho
+    simp only [List.mem_append, List.mem_map] at ho
+    rcases ho with ⟨h, hh, rfl⟩ | ⟨h, hh, rfl⟩
+    · exact hholds h hh
+    · exact hhits h hh
+  have hol : ∀ l ∈ objLines R c, strip l = l ∧ '\n' ∉ l := by
+    intro l hl
+    simp only [objLines, List.map_map, List.mem_map, Function.comp] at hl
+    obtain ⟨o, ho, rfl⟩ := hl
+    exact obj_line_ok R _ o (hobj o ho)
+  have htl := tpLines_ok R c hb hs
+  unfold readText
+  rw [lines_writeText R c hnl (fun l hl => noWs_not_nl l (htl l hl).1) (fun l hl => (hol l hl).2)]
+  have e0 : strip ([] : Str) = [] := rfl
+  have e1 : strip hTiming = hTiming := by decide +kernel
+  have e2 : strip hObjects = hObjects := by decide +kernel
+  have sections := readTiming_writeTiming R c.bpms c.svs (fun b hb' => (hb b hb').toBpmOk) (fun b hs' => (hs b hs').toSvOk)
+  have objs := readObjs_writeObjs R (pyTrunc c.md.circleSize) hk hk' (sortedObjs c) (fun o ho => (hobj o ho).toObjOk)
+  have f1 : ([[], []] : List Str).filter isSliderVelocity = [] := by decide +kernel
+  have f2 : ([[], []] : List Str).filter isTimingPoint = [] := by decide +kernel
+  have hcs : (qMeta R.uni c.md).circleSize = c.md.circleSize := rfl
+  apply read_sections _ (headS R c ++ [[]]) (tpLines R c ++ [[], []]) (objLines R c)
+  · simp only [List.map_append, List.map_cons, List.map_nil, e0, e1, e2, headS,
+      map_strip_of _ (fun l hl => strip_of_noWs l (htl l hl).1), map_strip_of _ (fun l hl => (hol l hl).1)]
+    simp
+  · simp only [List.mem_append, List.mem_singleton, not_or]
+    exact ⟨hT, by decide +kernel⟩
+  · simp only [List.mem_append, List.mem_singleton, not_or]
+    exact ⟨hO, by decide +kernel⟩
+  · simp only [List.mem_append, List.mem_cons, List.not_mem_nil, or_false, not_or]
+    exact ⟨fun hm => (htl _ hm).2 rfl, by decide +kernel, by decide +kernel⟩
+  · exact hmeta
+  · rw [List.filter_append, f1, List.append_nil]; exact sections.1
+  · rw [List.filter_append, f2, List.append_nil]; exact sections.2
+  · rw [hcs]; exact objs.1
+  · rw [hcs]; exact objs.2
+
+/-- the header part of the whole-text theorem, discharged: `HeaderOk` follows from `MetaOk` (integers where the
+reader uses `int()`, `repr` read-back for the non-integral numbers, comma-free sample file names) and from "no token of
+the written header renders a line break" -/
+theorem headerOk_of (R : Render) (c : Chart) (hm : MetaOk R c.md)
+    (hnl : ∀ tl ∈ writeMeta c.md, ∀ t ∈ tl, '\n' ∉ R.tok t) : HeaderOk R c := by
+  have hS : headS R c = hdrS R c.md ++ (c.md.samples.map writeSample).map R.line := headS_eq R c.md
+  have hsl : ∀ l ∈ (c.md.samples.map writeSample).map R.line, l ≠ hTiming ∧ l ≠ hObjects := by
+    intro l hl
+    simp only [List.map_map, List.mem_map, Function.comp] at hl
+    obtain ⟨s, _, rfl⟩ := hl
+    exact sample_line_not_header R s
+  refine ⟨?_, ?_, ?_, ?_⟩
+  · intro l hl
+    simp only [headLines, List.mem_map] at hl
+    obtain ⟨tl, htl, rfl⟩ := hl
+    exact line_no_nl R tl (hnl tl htl)
+  · rw [hS, List.mem_append, not_or]
+    exact ⟨(hdrS_not_header R c.md).1, fun h => (hsl _ h).1 rfl⟩
+  · rw [hS, List.mem_append, not_or]
+    exact ⟨(hdrS_not_header R c.md).2, fun h => (hsl _ h).2 rfl⟩
+  · rw [hS, List.append_assoc]
+    exact readMeta_header R c.md hm
+
+/-- **`read_file(write_file(c)) = quantize c` — the whole text, header included.**  For every chart — any number of
+hits, holds, tempo points, scroll velocities and sample events, every key count 1..256, every value of every one of
+the 32 metadata attributes (colons, non-ASCII, any number) — the text `"\n".join(write())`, split at line breaks,
+trimmed line by line, cut at the first `[TimingPoints]` / `[HitObjects]`, run through the metadata loop, the line
+classifiers and the five `read_string`s, is exactly `quantize c`: times truncated toward zero (each moving by less than
+1 ms, `qHit_close` / `qHold_close`), text attributes trimmed, everything else identical; and `quantize` is idempotent
+(`q*_idem`), so every later generation equals the first.
+Hypotheses — on the chart: columns inside the key count; hitsound file names without `,` `:` line break or trailing
+blank; non-zero bpm / SV; AudioLeadIn / BeatDivisor / GridSize hold integers; sample file names without comma.
+On the renderer (parameters of the model, DESIGN §5 K3): `repr` of each float that is actually written reads back
+exactly and contains no comma / blank (`ReprOk`, `NumOk`); no token of the header renders a line break. -/
+theorem read_writeText (R : Render) (c : Chart)
+    (hk : 0 < pyTrunc c.md.circleSize) (hk' : pyTrunc c.md.circleSize ≤ 256)
+    (hhits : ∀ h ∈ c.hits, ObjOk2 (pyTrunc c.md.circleSize) (.hit h))
+    (hholds : ∀ h ∈ c.holds, ObjOk2 (pyTrunc c.md.circleSize) (.hold h))
+    (hb : ∀ b ∈ c.bpms, BpmOk2 R b) (hs : ∀ b ∈ c.svs, SvOk2 R b)
+    (hm : MetaOk R c.md) (hnl : ∀ tl ∈ writeMeta c.md, ∀ t ∈ tl, '\n' ∉ R.tok t) :
+    readText (writeText R c) = .ok (quantize R.uni c) :=
+  read_writeText_of_header R c hk hk' hhits hholds hb hs (headerOk_of R c hm hnl)
+
+/-- non-vacuity of `read_writeText`: a 7K chart with a hit, a hold, a tempo point, a scroll velocity, a sample and
+text metadata containing colons satisfies every hypothesis (renderer: integers as integers) -/
+def demoChart : Chart :=
+  { md := { stackLeniency := 1, timelineZoom := 2, sliderMultiplier := 3, circleSize := 7, audioLeadIn := 1000000,
+            title := "a:b: c".toList, tags := ["x".toList, "y:z".toList], audioFileName := "a b.mp3".toList,
+            samples := [{ offset := 25/2, file := "\"clap.wav\"".toList, volume := 70 }] },
+    bpms := [{ offset := 0, bpm := 120, metronome := 4 }], svs := [{ offset := 10, multiplier := 2 }],
+    hits := [{ offset := 7/2, column := 6, file := "hit normal.wav".toList }],
+    holds := [{ offset := -21/2, column := 3, length := 21/4 }] }
+
+example : readText (writeText intRender demoChart) = .ok (quantize id demoChart) :=
+  read_writeText intRender demoChart (by decide +kernel) (by decide +kernel) (by decide +kernel) (by decide +kernel)
+    (by decide +kernel) (by decide +kernel) (by decide +kernel) (by decide +kernel)
 
 end Reamber.Osu
